@@ -108,21 +108,31 @@ theorem degrade_unsuppressed_step (cfg : Cfg) (hs : cfg.suppress = false) (w : W
   · rw [hr]; simp [outOf]
 
 /-- **Lock contract, acquire**: `set_lock` (SET NX PX) is write-if-absent with a lease: it succeeds iff the key is not
-visible, then the key holds the token until `now + ms`; otherwise nothing changes. -/
+visible, then the key holds the token until `now + ms` — or, for `ms = 0` (no ttl: `locked(ttl=None)`, finding D67 repaired:
+SET NX without PX), without a deadline until it is released; otherwise nothing changes. -/
 theorem lock_acquire (cfg : Cfg) (hup : ∀ n, cfg.down n = false) (w : World)
-    (hc : ∀ s ∈ w.cached, s ∈ w.srv.loaded) (k : String) (tok : Bytes) (ms : Nat) (hms : 0 < ms) :
+    (hc : ∀ s ∈ w.cached, s ∈ w.srv.loaded) (k : String) (tok : Bytes) (ms : Nat) :
     (step cfg w (.setLock k tok ms)).2 = .bool (!w.srv.ks.present k) ∧
     (w.srv.ks.present k = true → (step cfg w (.setLock k tok ms)).1.srv.ks = w.srv.ks) ∧
     (w.srv.ks.present k = false →
-      (step cfg w (.setLock k tok ms)).1.srv.ks.find k = some ⟨.str tok, some (w.srv.ks.now + ms)⟩) := by
+      (step cfg w (.setLock k tok ms)).1.srv.ks.find k =
+        some ⟨.str tok, if ms = 0 then none else some (w.srv.ks.now + ms)⟩) := by
   obtain ⟨h1, h2⟩ := redis_step_refines cfg hup w hc (.setLock k tok ms)
   rw [h1, h2]
-  have hms0 : ms ≠ 0 := by omega
   cases hp : w.srv.ks.present k
-  · refine ⟨by simp [Ref.step, hms0, hp], by simp, fun _ => ?_⟩
-    simp only [Ref.step, hms0, hp, if_false]
-    exact KS.find_put_self_live _ _ _ (by simp [REntry.live]; omega)
-  · exact ⟨by simp [Ref.step, hms0, hp], fun _ => by simp [Ref.step, hms0, hp], by simp⟩
+  · refine ⟨by simp [Ref.step, hp], by simp, fun _ => ?_⟩
+    simp only [Ref.step, hp, Bool.false_eq_true, if_false]
+    cases ms with
+    | zero =>
+      have h0 : pxOf (some 0) = none := rfl
+      simp only [h0, Option.map_none, if_true]
+      exact KS.find_put_self_live _ _ _ (by simp [REntry.live])
+    | succ n =>
+      have h1 : pxOf (some (n + 1)) = some (n + 1) := rfl
+      have hne : ¬ (n + 1 = 0) := by omega
+      simp only [h1, Option.map_some, hne, if_false]
+      exact KS.find_put_self_live _ _ _ (by simp [REntry.live])
+  · exact ⟨by simp [Ref.step, hp], fun _ => by simp [Ref.step, hp], by simp⟩
 
 /-- **Lock contract, release**: `unlock` (the `_UNLOCK` script) deletes the key iff it holds exactly the caller's
 token — the owner check — and otherwise changes nothing and answers 0. -/
@@ -149,7 +159,7 @@ theorem lock_excludes (cfg : Cfg) (hup : ∀ n, cfg.down n = false) (w : World)
     (step cfg w (.setLock k tok' ms)).2 = .bool false ∧ (step cfg w (.unlock k tok')).2 = .int 0 ∧
     (step cfg w (.unlock k tok')).1.srv.ks.find k = some ⟨.str tok, dl⟩ := by
   have hp : w.srv.ks.present k = true := by simp [KS.present, hheld]
-  obtain ⟨a1, _, _⟩ := lock_acquire cfg hup w hc k tok' ms hms
+  obtain ⟨a1, _, _⟩ := lock_acquire cfg hup w hc k tok' ms
   obtain ⟨_, b2, _⟩ := lock_release cfg hup w hc k tok'
   obtain ⟨c1, c2⟩ := b2 tok dl hheld (fun h => hne h.symm)
   refine ⟨by rw [a1, hp]; rfl, c1, by rw [c2]; exact hheld⟩
@@ -277,5 +287,12 @@ example :
     (txLockRun (cfgDownFrom 4 false) "L" (.blob "bb") 1000 envId 10 (heldWorld (cfgDownFrom 4 false))).2 = .raise ∧
     (txLockRun (cfgDownFrom 4 false) "L" (.blob "bb") 1000 envId 10 (heldWorld (cfgDownFrom 4 false))).1.calls = 5 ∧
     (txLockRun cfgUp "M" (.blob "bb") 1000 envId 10 (heldWorld cfgUp)).2 = .acquired := by decide +kernel
+
+/-- a lock without a lease (`ms = 0`: `@cache.locked()` with its default ttl, finding D67 repaired): SET NX goes without PX, time
+does not release the key, a competitor is refused, only the owner's unlock frees it -/
+example : (run cfgUp World.init [.setLock "L" (.blob "aa") 0, .getExpire "L", .adv 100000000, .isLocked "L",
+      .setLock "L" (.blob "bb") 500, .unlock "L" (.blob "bb"), .unlock "L" (.blob "aa"), .isLocked "L"]).2 =
+    [.bool true, .int (-1), .none_, .bool true, .bool false, .int 0, .int 1, .bool false] ∧
+    (run cfgUp World.init [.setLock "L" (.blob "aa") 0]).1.log = [.one (.set "L" (.blob "aa") none .nx)] := by decide +kernel
 
 end CashewsVerif.Props.C19
